@@ -6,6 +6,8 @@
 
 #include <memory>
 
+#include "verif-hooks.h"
+
 namespace dsplib {
 
 class CztPlanImpl
@@ -46,9 +48,12 @@ public:
         for (int i = 0; i < _n; ++i) {
             xp[i] = x[i] * _cp[i];
         }
+        DSPLIB_VERIF_YIELD();
         xp = _fft2->solve(xp);
+        DSPLIB_VERIF_YIELD();
         xp *= _ich;
         xp = _ifft2->solve(xp);
+        DSPLIB_VERIF_YIELD();
         arr_cmplx tr = xp.slice(_n - 1, _m + _n - 1);
         tr *= _rp;
         return tr;
